@@ -161,7 +161,7 @@ fn snap(c: &Connection) -> (ConnectionInfo, usize, usize, bool, bool) {
 }
 
 // one arbitrary incoming event against the reference transition function
-// @harness props=C18,C17 tier=quick timeout=3600 stubbed=vsock-io
+// @harness props=C18 tier=quick timeout=3600 stubbed=vsock-io
 #[kani::proof]
 #[kani::stub(VirtIOSocket::poll, VirtIOSocket::stub_poll)]
 #[kani::stub(VirtIOSocket::send_packet_to_tx_queue, VirtIOSocket::stub_send_packet)]
@@ -176,21 +176,45 @@ fn c18_dispatch_one() { dispatch_body(1) }
 #[kani::unwind(12)]
 fn c18_dispatch_two() { dispatch_body(2) }
 
-// two connections, connection requests only (isolation on the request path, quick tier)
-// @harness props=C18 tier=quick timeout=5400 stubbed=vsock-io
+// two connections, connection requests only (isolation on the request path)
+// @harness props=C18 tier=thorough timeout=5400 stubbed=vsock-io
 #[kani::proof]
 #[kani::stub(VirtIOSocket::poll, VirtIOSocket::stub_poll)]
 #[kani::stub(VirtIOSocket::send_packet_to_tx_queue, VirtIOSocket::stub_send_packet)]
 #[kani::unwind(12)]
-fn c18_dispatch_two_request() { dispatch_body_ev(2, 0) }
+fn c18_dispatch_two_request() {
+    let w = dispatch_body_ev(2, 0, false);
+    kani::cover!(w[3]);   // request matching an existing connection on a port nobody listens on
+    kani::cover!(w[4]);   // fresh request to the listening port
+}
 
-fn dispatch_body(nconn: usize) { dispatch_body_ev(nconn, 6) }
+// two connections, a connection request addressed to the FIRST of them (quick-tier slice of the harness above:
+// accepted on the listening port, otherwise reset and exactly that connection removed, the other one untouched)
+// @harness props=C18 tier=quick timeout=3600 stubbed=vsock-io
+#[kani::proof]
+#[kani::stub(VirtIOSocket::poll, VirtIOSocket::stub_poll)]
+#[kani::stub(VirtIOSocket::send_packet_to_tx_queue, VirtIOSocket::stub_send_packet)]
+#[kani::unwind(12)]
+fn c18_request_to_first_of_two() {
+    let w = dispatch_body_ev(2, 0, true);
+    kani::cover!(w[3]);
+}
+
+fn dispatch_body(nconn: usize) {
+    let w = dispatch_body_ev(nconn, 6, false);
+    kani::cover!(w[0]);
+    kani::cover!(w[1]);
+    kani::cover!(w[2]);
+}
 /// `only`: restrict the event type (6 = any of the six control events)
-fn dispatch_body_ev(nconn: usize, only: u8) {
+fn dispatch_body_ev(nconn: usize, only: u8, target0: bool) -> [bool; 5] {
     let (mut m, peers, ports, lp) = mk_mgr_n(None, nconn);
     let s0 = [snap(&m.connections[0]), snap(&m.connections[nconn - 1])];
-    let src = VsockAddr { cid: kani::any(), port: kani::any() };
-    let dst = VsockAddr { cid: kani::any(), port: kani::any() };
+    // `target0`: the event is addressed to connection 0 by construction (not by a symbolic comparison), so that the
+    // manager's table index is concrete - the general case (symbolic index into Vec::swap_remove's copy) is what
+    // makes c18_dispatch_two* take 12-15 minutes
+    let src = if target0 { peers[0] } else { VsockAddr { cid: kani::any(), port: kani::any() } };
+    let dst = if target0 { VsockAddr { cid: GCID, port: ports[0] } } else { VsockAddr { cid: kani::any(), port: kani::any() } };
     let blen: usize = 0;
     let sel: u8 = if only < 6 { only } else { kani::any::<u8>() % 6 };
     let et = match sel {
@@ -292,11 +316,15 @@ fn dispatch_body_ev(nconn: usize, only: u8) {
         }
     }
     core::mem::forget(m);
-    kani::cover!(only != 6 || ((m1 || nconn == 1 && m0) && et == VsockEventType::CreditRequest));
-    kani::cover!(only != 6 || (!m0 && !m1 && et == VsockEventType::ConnectionRequest && dst.cid == GCID && dst.port == lp));
-    kani::cover!(only != 6 || (m0 && et == VsockEventType::Disconnected { reason: DisconnectReason::Shutdown } && s0[0].2 > 0));
-    kani::cover!(only == 6 || (m0 && dst.port != lp));
-    kani::cover!(only == 6 || (!m0 && !m1 && dst.cid == GCID && dst.port == lp));
+    // witnesses for the callers' cover! statements (a cover is a solver call of its own: each harness states only
+    // the ones that are meaningful for its instantiation)
+    [
+        (m1 || nconn == 1 && m0) && et == VsockEventType::CreditRequest,
+        !m0 && !m1 && et == VsockEventType::ConnectionRequest && dst.cid == GCID && dst.port == lp,
+        m0 && et == VsockEventType::Disconnected { reason: DisconnectReason::Shutdown } && s0[0].2 > 0,
+        m0 && dst.port != lp,
+        !m0 && !m1 && dst.cid == GCID && dst.port == lp,
+    ]
 }
 
 // recv: drains in order, forwards exactly what it drained, closes a shut-down connection once drained
@@ -307,7 +335,7 @@ fn dispatch_body_ev(nconn: usize, only: u8) {
 #[kani::unwind(12)]
 fn c17_manager_recv_step() { recv_body(Some((7, 3)), 4, 2) }
 
-// @harness props=C17,C18 tier=quick timeout=3600 stubbed=vsock-io
+// @harness props=C17 tier=quick timeout=3600 stubbed=vsock-io
 #[kani::proof]
 #[kani::stub(VirtIOSocket::poll, VirtIOSocket::stub_poll)]
 #[kani::stub(VirtIOSocket::send_packet_to_tx_queue, VirtIOSocket::stub_send_packet)]
@@ -371,7 +399,7 @@ fn recv_body(ring0: Option<(usize, usize)>, n: usize, nconn: usize) {
 }
 
 // local operations: duplicate connect, listen/unlisten idempotent, force_close removes exactly one entry
-// @harness props=C18 tier=quick timeout=3600 stubbed=vsock-io
+// @harness props=C18 tier=thorough timeout=3600 stubbed=vsock-io
 #[kani::proof]
 #[kani::stub(VirtIOSocket::poll, VirtIOSocket::stub_poll)]
 #[kani::stub(VirtIOSocket::send_packet_to_tx_queue, VirtIOSocket::stub_send_packet)]
@@ -429,14 +457,14 @@ fn rx_body(ring0: (usize, usize), blen: usize) {
     kani::cover!(ba == 0 && fc == 0xffff_ffff);
 }
 
-// @harness props=C17,C18 tier=quick timeout=3600 stubbed=vsock-io
+// @harness props=C17 tier=quick timeout=3600 stubbed=vsock-io
 #[kani::proof]
 #[kani::stub(VirtIOSocket::poll, VirtIOSocket::stub_poll)]
 #[kani::stub(VirtIOSocket::send_packet_to_tx_queue, VirtIOSocket::stub_send_packet)]
 #[kani::unwind(12)]
 fn c17_manager_rx_fits_wrapping() { rx_body((6, 1), 4) }
 
-// @harness props=C17,C18 tier=quick timeout=3600 stubbed=vsock-io
+// @harness props=C17 tier=thorough timeout=3600 stubbed=vsock-io
 #[kani::proof]
 #[kani::stub(VirtIOSocket::poll, VirtIOSocket::stub_poll)]
 #[kani::stub(VirtIOSocket::send_packet_to_tx_queue, VirtIOSocket::stub_send_packet)]
@@ -449,3 +477,19 @@ fn c17_manager_rx_too_big() { rx_body((3, 5), 4) }
 #[kani::stub(VirtIOSocket::send_packet_to_tx_queue, VirtIOSocket::stub_send_packet)]
 #[kani::unwind(12)]
 fn c17_manager_rx_exact_fill() { rx_body((0, 0), 8) }
+
+// quick-tier slice of c18_local_ops: a second connect to the same (peer, local port) is refused
+// @harness props=C18 tier=quick timeout=3600 stubbed=vsock-io
+#[kani::proof]
+#[kani::stub(VirtIOSocket::poll, VirtIOSocket::stub_poll)]
+#[kani::stub(VirtIOSocket::send_packet_to_tx_queue, VirtIOSocket::stub_send_packet)]
+#[kani::unwind(12)]
+fn c18_duplicate_connect() {
+    let (mut m, peers, ports, _lp) = mk_mgr_n(Some((0, 0)), 1);
+    let s0 = snap(&m.connections[0]);
+    assert!(m.connect(peers[0], ports[0]) == Err(SocketError::ConnectionExists.into()), "C18: duplicate connect must fail with ConnectionExists");
+    assert!(unsafe { ST_TX_N } == 0 && m.connections.len() == 1 && snap(&m.connections[0]) == s0, "C18: a refused connect must send nothing and change nothing");
+    core::mem::forget(m);
+    kani::cover!(peers[0].cid == 2);
+    kani::cover!(ports[0] == 0);
+}
